@@ -32,6 +32,8 @@ def configs(tier, seed):
                 for form in ("numpy", "pandas", "csv"):
                     key = f"export/{form}/" + "+".join(f"{a}>{b}:{d or '-'}" for (a, b), d in zip(fs, fdims)) + "/stocks=" + ",".join(str(s) for s in sc)
                     out.append(dict(h="export", op=form, key=key, procs=procs, flows=[list(p) for p in fs], fdims=fdims, stocks=sc, form=form))
+                    if form == "numpy" and rot == 0:
+                        out.append(dict(h="export", op=form + "ids", key=key + "/permuted_ids", procs=procs, flows=[list(p) for p in fs], fdims=fdims, stocks=sc, form=form, permuted_ids=True))
     # MFADefinition.to_dfs: purely structural (no numeric content exists): every subset of non-empty kinds of definition
     for mask in range(32):
         out.append(dict(h="definition_tables", op="to_dfs", key=f"definition_tables/kinds={mask:05b}", mask=mask, procs=[], flows=[], fdims=[], stocks=[], form="to_dfs"))
